@@ -116,6 +116,7 @@ class DCOP(object):
 
     def add_variable(self, v: Variable):
         self.variables[v.name] = v
+        self.domains[v.domain.name] = v.domain
         return v
 
     def add_constraint(self, constraint: RelationProtocol):
